@@ -27,6 +27,9 @@ func gnCase(c *x509.Certificate) (term, tag string, ok bool) {
 			s = statusOrPanic(l.Execute(c, lint.NewEmptyConfig()))
 		}
 		sts[i] = cqZ(int64(s))
+		if tag != "" {
+			tag += "/"
+		}
 		tag += fmt.Sprint(s)
 	}
 	var sanVal, ianVal []byte
@@ -96,6 +99,9 @@ func gnRawCase(c *x509.Certificate) (term, tag string, ok bool) {
 			s = statusOrPanic(l.Execute(c, lint.NewEmptyConfig()))
 		}
 		sts[i] = cqZ(int64(s))
+		if tag != "" {
+			tag += "/"
+		}
 		tag += fmt.Sprint(s)
 	}
 	return fmt.Sprintf("(mkRview %s %s %s %s, %s)", cqBool(san != nil), sanL, cqBool(ian != nil), ianL, cqList(sts)), tag, true
